@@ -3,7 +3,7 @@ import ast
 
 from ..core import Mutant
 from .. import sched
-from ..astutil import unparse, is_self_call, parent
+from ..astutil import unparse, is_self_call, parent, keytext
 from ..index import dotted, walk_local
 from ..linear import canon_compare, linform, show, same
 
@@ -66,7 +66,7 @@ def done_obs(run, rule, cls):
                 k = "from:<close-result>"
             got.add(k)
             ok = k in want
-            run.ob(rule, "%s:done-store:%s" % (f.fq, text), ok, site,
+            run.ob(rule, "%s:done-store:%s" % (f.fq, keytext(f, text)), ok, site,
                    "" if ok else "store to a doer's done flag in %s is `%s` (%s); allowed here: %s" % (meth, text, k, sorted(want)))
         miss = want - got
         run.ob(rule, "%s:done-stores-present" % f.fq, not miss, run.site(f),
@@ -82,7 +82,7 @@ def selfdone_obs(run, rule, f):
             if isinstance(v, ast.YieldFrom):
                 v = v.value
             ok = isinstance(v, ast.Call) and is_self_call(v, "recur") is not None
-            run.ob(rule, "%s:self.done-from-recur:%s" % (f.fq, unparse(n)), ok, run.site(f, n),
+            run.ob(rule, "%s:self.done-from-recur:%s" % (f.fq, keytext(f, n)), ok, run.site(f, n),
                    "" if ok else "self.done assigned from `%s`, not from recur's return" % unparse(n.value))
             n_ok += 1
     return n_ok
